@@ -3,7 +3,7 @@ CONSTANTS
   IgnorePatterns <- DataIgnorePatterns
   EaExts <- DataEaExts
   SkipUnservable = FALSE
-  SortedEnum = FALSE
+  SortedLinks = FALSE
   DotRuleAll = TRUE
   Suites <- SuitesQuick
 INVARIANT OrderFree
